@@ -205,16 +205,73 @@ def gen_props(n):
     out.append("  - intro bs. apply gen_tuple%d_from_ssz_bytes." % n)
     out.append("Qed.")
     out.append("Print Assumptions Src_C01_tuple%d.\n" % n)
+    # C02: what the expanded decoder accepts, the expanded encoder writes back
+    out.append("Theorem Src_C02_tuple%d %s bs p :" % (n, " ".join(ts)))
+    out.append("  canon_type %s = true -> phys bs -> 2 * len bs <= usize_max ->" % T)
+    out.append("  GenD.tuple%d_from_ssz_bytes %s bs = Ok p ->" % (n, dargs))
+    out.append("  GenD.tuple%d_ssz_append %s p [] = Ok bs." % (n, eargs))
+    out.append("Proof.")
+    out.append("  intros Hc Hp HF Hr.")
+    out.append("  assert (Hd : dec %s bs = Ok (inj%d p)) by (rewrite <- gen_tuple%d_from_ssz_bytes, Hr; reflexivity)." % (T, n, n))
+    out.append("  destruct (canon_facts leaf_facts _ Hc bs (inj%d p) Hp Hd) as (He & Hty)." % n)
+    out.append("  destruct p as %s. unfold inj%d in *. cbn [fst snd] in *." % (pat, n))
+    out.append("  rewrite gen_tuple%d_ssz_append; [f_equal; exact He|]." % n)
+    out.append("  pose proof (proj1 (size_facts leaf_facts _ _ Hty)) as S. rewrite bytes_len_container_sum in S by reflexivity.")
+    out.append("  cbn [combine map sumN fst snd] in S. fold (enc %s %s) in He. rewrite He in S." % (T, V))
+    out.append("  rewrite has_ty_container, !has_ty_fields_cons in Hty.")
+    out.append("  repeat (let H := fresh \"HT\" in apply andb_prop in Hty; destruct Hty as [H Hty]).")
+    hts = ["HT"] + ["HT%d" % k for k in range(n - 1)]
+    for k in range(n - 1):
+        out.append("  pose proof (field_len_ge %s %s %s)." % (ts[k], vs[k], hts[k]))
+    for k in range(n):
+        out.append("  pose proof (fixed_len_le_field_len %s %s)." % (ts[k], vs[k]))
+    # the atoms are abstracted first: zify is slow on the unabstracted terms (37 s at arity 9, 0.1 s after)
+    out.append("  clear Hc Hp Hr Hd He Hty. repeat match goal with H : has_ty _ _ = true |- _ => clear H end.")
+    out.append("  repeat match goal with |- context [len (enc ?t ?v)] => let x := fresh \"x\" in set (x := len (enc t v)) in *; clearbody x end.")
+    out.append("  repeat match goal with H : context [field_len ?t ?v] |- _ => let y := fresh \"y\" in set (y := field_len t v) in *; clearbody y end.")
+    out.append("  repeat match goal with |- context [e_fixed_len ?t] => let z := fresh \"z\" in set (z := e_fixed_len t) in *; clearbody z end.")
+    out.append("  lia.")
+    out.append("Qed.")
+    out.append("Print Assumptions Src_C02_tuple%d.\n" % n)
     return "\n".join(out)
 
-head_props = '''(** * GenPropsTupleN: C01 stated about the tuple impls of arity 3 to 12 as rustc expands them: what the expanded
-    encoder writes for a tuple, the expanded decoder reads back as that tuple, for every choice of component type
-    expressions.  Written by tools/gen_tuple_proofs.py --props (one instance of [src_round_trip] per arity). *)
+head_props = '''(** * GenPropsTupleN: C01 and C02 stated about the tuple impls of arity 3 to 12 as rustc expands them: what the expanded
+    encoder writes for a tuple, the expanded decoder reads back as that tuple; what the expanded decoder accepts, the
+    expanded encoder writes back byte for byte -- for every choice of component type expressions.  Written by
+    tools/gen_tuple_proofs.py --props. *)
 From SSZ Require Import Base RustSem Offsets Encoder Builder Types Codec CodecUnfold BaseFacts OffsetsFacts AppendFacts MetaFacts
      ListDecFacts NoPanic Canon OrderFacts RoundTrip LeafIface LeafProof SizeFacts Strict
      Generated GenEquiv GenEquivDec GenEquivEnc GenProps GeneratedDerive GenEquivDerive GenEquivDerive2 GenEquivTuple GenEquivTupleN GenPropsDerive.
 From Coq Require Import ZArith ZifyN ZifyBool ZifyNat Lia.
 Open Scope N_scope.
+
+(** the length of a container's encoding is the sum of its fields' shares, whatever their size classes *)
+Lemma sum_fixed_is_field_len fs vs : length fs = length vs -> forallb e_is_fixed fs = true ->
+  sumN (map e_fixed_len fs) = sumN (map (fun p => field_len (fst p) (snd p)) (combine fs vs)).
+Proof.
+  revert vs. induction fs as [|f fs IH]; intros [|v vs] Hl Hf; try discriminate; [reflexivity|].
+  cbn [forallb] in Hf. apply andb_prop in Hf. destruct Hf as [Hf1 Hf2].
+  cbn [combine map sumN fst snd]. unfold field_len at 1. rewrite Hf1. rewrite (IH vs); [reflexivity| cbn [length] in Hl; congruence | exact Hf2].
+Qed.
+
+Lemma bytes_len_container_sum d fs vs : length fs = length vs ->
+  bytes_len (TContainer d fs) (VCont vs) = sumN (map (fun p => field_len (fst p) (snd p)) (combine fs vs)).
+Proof.
+  intro Hl. rewrite bytes_len_container. destruct (forallb e_is_fixed fs) eqn:E; [|reflexivity].
+  apply sum_fixed_is_field_len; assumption.
+Qed.
+
+Lemma field_len_ge t v : has_ty t v = true -> len (enc t v) <= field_len t v.
+Proof.
+  intro Hty. unfold field_len. destruct (e_is_fixed t) eqn:EF.
+  - rewrite (proj2 (size_facts leaf_facts t v Hty) EF). lia.
+  - rewrite <- (proj1 (size_facts leaf_facts t v Hty)). lia.
+Qed.
+
+Lemma fixed_len_le_field_len t v : e_fixed_len t <= field_len t v.
+Proof.
+  unfold field_len. destruct (e_is_fixed t) eqn:EF; [lia|]. rewrite (variable_fixed_len t EF). unfold BYTES_PER_LENGTH_OFFSET. lia.
+Qed.
 
 '''
 
